@@ -32,7 +32,7 @@ class NormStr(str):
         return o
 
     def __eq__(self, other):
-        if str.__eq__(self, other):
+        if str.__eq__(self, other) is True:     # NotImplemented (other is not a str) is truthy
             return True
         if isinstance(other, str) and not isinstance(other, NormStr) and self.node is not None:
             return _alpha_eq(self.node, other)
